@@ -587,13 +587,16 @@ def replay(case):
     import mappyfile
 
     if case["op"] == "update":
-        a1, a2 = mk(case["d1"], case["mapfile"]), mk(case["d2"], case["mapfile"])
+        upper = case["mapfile"] == "upper"
+        a1 = mk(case["d1"], bool(case["mapfile"]))
+        a2 = upper_keys(copy.deepcopy(case["d2"])) if upper else mk(case["d2"], case["mapfile"])
         exp = ref_update(copy.deepcopy(case["d1"]), copy.deepcopy(case["d2"]), case["overwrite"])
         try:
             out = mappyfile.update(a1, a2, case["overwrite"])
         except Exception as e:
             return {"raised": repr(e)}
-        return None if D.typed(D.plain(out)) == D.typed(exp) else {"got": D.plain(out), "expected": exp}
+        got = lower_keys(D.plain(out)) if upper else D.plain(out)
+        return None if D.typed(got) == D.typed(exp) else {"got": D.plain(out), "expected": exp}
     if case["op"] in ("find", "findall", "findunique"):
         return {"fails": True} if find_case_fails(case["op"], case["groups"], case["query"], case["mapfile"]) else None
     return None
